@@ -15,7 +15,8 @@ RULE = ("Tables of 0..N rows built from generated Python values for Interval, Be
         "PairsEntry and VCFWithInfoAsStringEntry; integers over the int64 range with emphasis near powers of ten, finite floats, identifier "
         "character set, empty optional fields. A writing plan splits the rows into pieces (zero-length pieces included) and writes them as "
         "successive write calls, as a stream of chunks, or in successive append sessions, to a plain or gzip target, through bnp.open on real "
-        "files. Oracles: (a) the body written by a single write equals an independent canonical serializer (tab-separated, str(int), "
+        "files. In a third of the cases the pieces are not built from values but are slices (optionally thinned by a boolean mask) of the lazily "
+        "re-read single-write file, written piecewise or as one np.concatenate of the pieces. Oracles: (a) the body written by a single write equals an independent canonical serializer (tab-separated, str(int), "
         "str(float), FASTA wrapped at 80, four-line FASTQ, VCF POS+1); (b) reading the file back eagerly and lazily gives the input rows "
         "(floats within 8 ulp); (c) the decompressed content of the plan equals the single write byte for byte, header lines once and first. "
         "Non-trivial: >= 2 rows of different serialized length, and for (c) >= 2 write operations.")
@@ -25,7 +26,7 @@ ASSUMPTIONS = [
     "Floats are compared within 8 ulp after the round trip (the parser is not correctly rounded, see C18).",
 ]
 REQUIRED_CLASSES = ["seq-len-79-81", "seq-len-159-161", "negative-int", "one-char-field", "append", "gzip", "stream", "empty-piece-between",
-                    "empty-piece-first", "int-near-power-of-ten", "empty-table"]
+                    "empty-piece-first", "int-near-power-of-ten", "empty-table", "pieces-from-reread", "pieces-from-reread-thinned", "concat-of-reread-pieces"]
 BOUNDS = {"quick": "150 (table, plan) pairs for each of 13 table types, up to 8 rows", "thorough": "3000 per type, up to 40 rows"}
 BUDGET_S = {"quick": 200, "thorough": 1500}
 
@@ -69,6 +70,8 @@ TYPES = {
                   ("filter", "str"), ("info", "str")]),
 }
 COMMENT = {"sam": "@"}
+# re-read sources are used for the formats whose lazily read selections can be written back (C04 covers that write path in depth)
+NO_REREAD = ("bed12", "chromsizes", "gtf", "pairs", "fasta", "vcfentry")
 
 
 def _load(path):
@@ -170,31 +173,55 @@ def split_header(tname, data):
     return hdr, data[len(hdr):]
 
 
-def run_plan(tname, rows, plan, path):
-    """Write `rows` according to the plan; returns the decompressed file content."""
+def plan_rows(rows, plan):
+    """The rows the plan writes, in order (a re-read source may be thinned to every second row of each piece)."""
+    if plan.get("source") == "reread" and plan.get("thin"):
+        return [r for i, r in enumerate(rows) if i % 2 == 0]
+    return list(rows)
+
+
+def run_plan(tname, rows, plan, path, single=None):
+    """Write `rows` according to the plan; returns the decompressed file content.
+    source 'constructed': every piece is a table built from values. source 'reread': the pieces are slices (optionally thinned by a
+    boolean mask, i.e. non-contiguous selections) of the table obtained by reading the single-write file back lazily."""
+    import numpy as np
     import bionumpy as bnp
     from bionumpy.streams import NpDataclassStream
     bt = _load(TYPES[tname][1])
     dc = _load(TYPES[tname][0])
-    pieces, pos = [], 0
+    bounds, pos = [], 0
     for n in plan["pieces"]:
-        pieces.append(rows[pos:pos + n])
-        pos += n
-    pieces.append(rows[pos:]) if pos < len(rows) or not pieces else None
+        bounds.append((pos, min(pos + n, len(rows))))
+        pos = min(pos + n, len(rows))
+    bounds.append((pos, len(rows))) if pos < len(rows) or not bounds else None
+    if plan.get("source") == "reread":
+        whole = bnp.open(single, buffer_type=bt).read()
+
+        def piece(a, b):
+            t = whole[a:b]
+            if plan.get("thin"):
+                t = t[np.array([(a + i) % 2 == 0 for i in range(b - a)], dtype=bool)]
+            return t
+    else:
+        def piece(a, b):
+            return build_table(tname, rows[a:b])
     mode = plan["mode"]
     if mode == "writes":
         with bnp.open(path, "w", buffer_type=bt) as f:
-            for p in pieces:
-                f.write(build_table(tname, p))
+            for a, b in bounds:
+                f.write(piece(a, b))
     elif mode == "stream":
         with bnp.open(path, "w", buffer_type=bt) as f:
-            f.write(NpDataclassStream((build_table(tname, p) for p in pieces), dataclass=dc))
+            f.write(NpDataclassStream((piece(a, b) for a, b in bounds), dataclass=dc))
     elif mode == "append":
         first = True
-        for p in pieces:
+        for a, b in bounds:
             with bnp.open(path, "w" if first else "a", buffer_type=bt) as f:
-                f.write(build_table(tname, p))
+                f.write(piece(a, b))
             first = False
+    elif mode == "concat":
+        with bnp.open(path, "w", buffer_type=bt) as f:
+            f.write(np.concatenate([piece(a, b) for a, b in bounds]))
     else:
         raise ValueError(mode)
     with open(path, "rb") as f:
@@ -220,6 +247,10 @@ def classify(case):
                 cl.append("one-char-field")
     if plan.get("gzip"):
         cl.append("gzip")
+    if plan.get("source") == "reread":
+        cl.append("pieces-from-reread" + ("-thinned" if plan.get("thin") else ""))
+        if plan["mode"] == "concat":
+            cl.append("concat-of-reread-pieces")
     pieces = plan["pieces"]
     if pieces and pieces[0] == 0 and len(rows) > 0:
         cl.append("empty-piece-first")
@@ -269,10 +300,19 @@ def check(case, stats=None):
         # (c) composition
         target = os.path.join(d, "plan" + suffix + (".gz" if plan.get("gzip") else ""))
         try:
-            got = run_plan(tname, rows, plan, target)
+            got = run_plan(tname, rows, plan, target, single)
         except Exception as e:
-            return [Failure(f"C03:plan-raised:{plan['mode']}:{tname}:{type(e).__name__}:{_where(e)}", {"error": repr(e)[:300]})]
-        if got != data:
+            return [Failure(f"C03:plan-raised:{plan['mode']}:{tname}:{type(e).__name__}:{_where(e)}", {"error": repr(e)[:300], "source": plan.get("source")})]
+        if plan.get("source") == "reread":
+            # the pieces come from the file just written: writing them back (whole, thinned, concatenated) gives the canonical bytes of those rows
+            want_rows = plan_rows(rows, plan)
+            want = (hdr if want_rows or got.startswith(hdr) else b"") + canonical_body(tname, want_rows)
+            if got != want:
+                h2, b2 = split_header(tname, got)
+                kind = "header-repeated-or-missing" if b2 == canonical_body(tname, want_rows) else "content"
+                out.append(Failure(f"C03:composition:{kind}:reread:{plan['mode']}", {"expected": want[:400], "plan": got[:400], "pieces": plan["pieces"],
+                                                                                   "thin": plan.get("thin"), "type": tname}))
+        elif got != data:
             h2, b2 = split_header(tname, got)
             if b2 == body and h2 != hdr:
                 kind = "header-repeated-or-missing"
@@ -339,6 +379,8 @@ def c03_case(draw, tname, max_rows):
     k = draw(st.integers(1 if n == 0 else 0, 4))
     pieces = [draw(st.integers(0, max(1, n))) for _ in range(k)]
     plan = {"pieces": pieces, "mode": draw(st.sampled_from(["writes", "writes", "stream", "append"])), "gzip": draw(st.booleans())}
+    if n >= 2 and tname not in NO_REREAD and draw(st.integers(0, 2)) == 0:
+        plan.update(source="reread", thin=draw(st.booleans()), mode=draw(st.sampled_from(["writes", "stream", "append", "concat", "concat"])))
     return {"type": tname, "rows": rows, "plan": plan}
 
 
